@@ -12,7 +12,7 @@ import sys
 import tempfile
 from unittest import mock
 
-from harness import common, tlegen
+from harness import common, tlegen, numeric
 
 LEVEL = "proof"
 NOLOC = 9999
@@ -436,7 +436,12 @@ def run(ctx):
         "file), name lines not starting with '1 ', requested name not of the form '1 ...'/'2 ...' (necessity of each proved by a _refuted witness)",
         "network never used: tlefile.urlopen and requests.get are replaced (blocking, or serving planted collections for the URL source)",
     ]
+    src, _names = numeric.regen_ast(ctx, "collection", "the per-line decision of _decode_lines, _merge_tle_from_two_lines and the loop shape of "
+                                    "_get_tles_from_url; the iterator, strip/startswith and the registry dict stay the hand model's primitives",
+                                    optional=True)
     ctx.build_props("props/C10.v")
+    if src is not None:
+        ctx.build_props("props/C10_source.v")
     tmpdir = tempfile.mkdtemp(prefix="verif-c10-", dir="/var/tmp")
     try:
         _run(ctx, tlefile, tmpdir)
